@@ -18,13 +18,18 @@ REPO = os.environ.get('VERIF_REPO', '/repo')
 NTHREADS = int(os.environ.get('VERIF_THREADS', '16'))
 
 def sh(cmd, timeout=None, env=None, cwd=None):
+    """run a command in its own process group; on timeout kill exactly that group (never other users' solvers)"""
+    import signal
     t0 = time.time()
+    p = subprocess.Popen(cmd, shell=isinstance(cmd, str), stdout=subprocess.PIPE, stderr=subprocess.PIPE, text=True, env=env, cwd=cwd, start_new_session=True)
     try:
-        p = subprocess.run(cmd, shell=isinstance(cmd, str), capture_output=True, text=True, timeout=timeout, env=env, cwd=cwd)
-        return p.returncode, p.stdout, p.stderr, time.time() - t0
-    except subprocess.TimeoutExpired as e:
-        subprocess.run('pkill -x z3; pkill -f rust_verify', shell=True)
-        return 124, (e.stdout or b'').decode() if isinstance(e.stdout, bytes) else (e.stdout or ''), 'TIMEOUT', time.time() - t0
+        out, err = p.communicate(timeout=timeout)
+        return p.returncode, out, err, time.time() - t0
+    except subprocess.TimeoutExpired:
+        try: os.killpg(p.pid, signal.SIGKILL)
+        except Exception: pass
+        out, err = p.communicate()
+        return 124, out or '', 'TIMEOUT', time.time() - t0
 
 # ------------------------------------------------------------------ verus
 ERR_RE = re.compile(r'^(error|warning|note)(\[[^\]]*\])?: (.*)$')
@@ -59,7 +64,6 @@ def run_verus(gen, modules, rlimit=30, timeout=900, extra=''):
     mods = ' '.join('--verify-module %s' % m for m in modules)
     cmd = 'verus %s --multiple-errors 40 --num-threads %d --output-json --time-expanded --triggers-mode silent --rlimit %d %s %s' % (gen, NTHREADS, rlimit, mods, extra)
     rc, out, err, wall = sh(cmd, timeout=timeout)
-    subprocess.run('pkill -x z3 2>/dev/null', shell=True)
     js = None
     try:
         js = json.loads(out)
